@@ -7,7 +7,9 @@ fn divi(mut y: u32, mut x: u32) -> u32 {
     if x == 0 {
         0 // x == y == 0
     } else {
-        ((y / x) << 15) + (1 << 14)
+        // y <= x: the quotient is at most 1.0 (1 << 16), but the truncated divisor can overshoot it
+        // (y = x = 3 gave 1.5, which overflowed the polynomial in atani)
+        ((y / x).min(1 << 16) << 15) + (1 << 14)
     }
 }
 
